@@ -83,11 +83,15 @@ fn json_nesting_exceeds(json: &str, max: usize) -> bool {
     let mut depth = 0usize;
     let mut in_string = false;
     let mut escaped = false;
+    // The scan covers the whole command. A quoted context id in front of the payload is
+    // delimited by the command grammar, which knows no escapes; backslashes count only
+    // once the payload has started, otherwise `FOR "a\"` would hide the payload's nesting.
+    let mut in_payload = false;
     for c in json.chars() {
         if in_string {
             if escaped {
                 escaped = false;
-            } else if c == '\\' {
+            } else if c == '\\' && in_payload {
                 escaped = true;
             } else if c == '"' {
                 in_string = false;
@@ -97,6 +101,7 @@ fn json_nesting_exceeds(json: &str, max: usize) -> bool {
         match c {
             '"' => in_string = true,
             '{' | '[' => {
+                in_payload = true;
                 depth += 1;
                 if depth > max {
                     return true;
